@@ -1453,6 +1453,8 @@ func (e *lbEngine) execCall(in *lbInst, st *lstate, call *ssa.Call) *lstate {
 			if ok1 && ok2 {
 				e.require(in, st, call, "C03/R6", "error position within the input", []string{"pos <= len(Buffer)", "end <= len(Buffer)"},
 					[]lin{linAtom(e.N).sub(p), linAtom(e.N).sub(q)})
+				e.require(in, st, call, "C09/R5", "error range is ordered", []string{"0 <= pos", "pos <= end"},
+					[]lin{p, q.sub(p)})
 			}
 		}
 		return st
@@ -2342,6 +2344,66 @@ func (e *lbEngine) results() []*lbOb {
 }
 
 // ruleC03R6: bounds of every index, slice, cursor move and error position of the byte-level code.
+// lexDeepRun: the deep LEXBOUNDS interpretation (nextToken in both modes, callees inlined in context, then every
+// function of the scope that was not reached), run once per process and shared by the rules that read its obligations.
+func (w *World) lexDeepRun(e *lbEngine) *lbEngine {
+	if w.lexDeep != nil {
+		return w.lexDeep
+	}
+	nt := w.fn(w.Mem, "(*Lexer).nextToken")
+	if nt == nil {
+		return e
+	}
+	e.runRoot(nt, map[string]bool{"noPanic": false})
+	e.runRoot(nt, map[string]bool{"noPanic": true})
+	var rest []*ssa.Function
+	for _, fn := range w.ModFns {
+		if fn.Parent() != nil || fn.Synthetic != "" || !e.inScope(fn) || e.visited[fn] {
+			continue
+		}
+		rest = append(rest, fn)
+	}
+	for _, fn := range rest {
+		if e.visited[fn] {
+			continue
+		}
+		e.runRoot(fn, nil)
+	}
+	w.lexDeep = e
+	return e
+}
+
+// ruleC09R5: the range of a lexer error is ordered.
+func ruleC09R5(w *World, r *Report) {
+	const rule = "C09/R5"
+	r.rule(rule, "every (pos, end) pair the lexer hands to File.Position satisfies 0 <= pos <= end (and end <= len(Buffer), C03/R6): the Position of an *Error of the lexer has 0 <= Pos <= End <= len(input) — proved at the call inside errorfAtPosition in every calling context of the deep LEXBOUNDS run", 14)
+	defer debug.SetGCPercent(debug.SetGCPercent(1000))
+	e := w.lexDeepRun(w.newLexBounds())
+	n := 0
+	for _, ob := range e.results() {
+		if ob.rule != rule {
+			continue
+		}
+		n++
+		if ob.failed == 0 {
+			r.ok(rule, ob.construct, ob.where, fmt.Sprintf("proved in %d context(s)", ob.total))
+		} else {
+			var ds []string
+			for d := range ob.details {
+				ds = append(ds, d)
+			}
+			sort.Strings(ds)
+			r.bad(rule, ob.construct, ob.where, fmt.Sprintf("%d of %d context(s): %s", ob.failed, ob.total, strings.Join(ds, " | ")))
+		}
+	}
+	for _, nn := range uniqSorted(e.notes) {
+		r.undecided(rule, "engine limit: "+nn, "-", "the interpretation lost track of the cursor here")
+	}
+	if n == 0 {
+		r.errorf("no call of File.Position reached by the interpretation")
+	}
+}
+
 func ruleC03R6(w *World, r *Report) {
 	const rule = "C03/R6"
 	r.rule(rule, "byte-level code never indexes outside its operand: in the methods of *Lexer (interpreted from (*Lexer).nextToken for noPanic=false and noPanic=true, callees inlined in context) and in token/quote.go and char/, every index s[i] has 0 <= i < len(s), every slice s[a:b] has 0 <= a <= b <= len(s), every assignment to Lexer.pos keeps 0 <= pos <= len(Buffer), and every error position handed to File.Position is <= len(Buffer) — proved in a relational linear-inequality domain over pos, len(Buffer), loop counters and string lengths; Lexer.pos is written only in lexer.go", 60)
@@ -2377,22 +2439,7 @@ func ruleC03R6(w *World, r *Report) {
 		}
 		return
 	}
-	e.runRoot(nt, map[string]bool{"noPanic": false})
-	e.runRoot(nt, map[string]bool{"noPanic": true})
-	// everything else in scope that was not reached from nextToken
-	var rest []*ssa.Function
-	for _, fn := range w.ModFns {
-		if fn.Parent() != nil || fn.Synthetic != "" || !e.inScope(fn) || e.visited[fn] {
-			continue
-		}
-		rest = append(rest, fn)
-	}
-	for _, fn := range rest {
-		if e.visited[fn] {
-			continue
-		}
-		e.runRoot(fn, nil)
-	}
+	e = w.lexDeepRun(e)
 	for _, p := range uniqSorted(e.rootPre) {
 		r.note("root precondition: %s", p)
 	}
